@@ -61,10 +61,11 @@ pub fn exec(sc: &Scenario, st: &mut Stats) -> Option<Violation> {
     let mut faults_fired = 0u64;
     let mut resets_done = 0u64;
     let mut restores = 0u64;
+    let mut clone_cycles = 0u64;
     let mut warm_at = warm;
     for (i, op) in sc.ops.iter().enumerate() {
-        let (desc, skip, len, fault, every, reset_every) = match op {
-            Op::Gen { g, skip, len, fault, every, reset_every, .. } => (*g, *skip, *len, *fault, *every, *reset_every),
+        let (desc, skip, len, fault, every, reset_every, clone_every) = match op {
+            Op::Gen { g, skip, len, fault, every, reset_every, clone_every, .. } => (*g, *skip, *len, *fault, *every, *reset_every, *clone_every),
             Op::RoundTrip { .. } | Op::Fork { .. } => {
                 // crash/restore (or hand-over to a clone) in mid-stream: the process continues with the
                 // restored node; heap accounting restarts after a fresh warm-up of the restored node
@@ -86,6 +87,11 @@ pub fn exec(sc: &Scenario, st: &mut Stats) -> Option<Violation> {
             }
             if fk != Fault::Clean {
                 faults_fired += 1;
+            }
+            if clone_every > 0 && t > 0 && t % clone_every == 0 {
+                // clone cycle: the process goes on with the clone, the original is dropped
+                node = on(Side::Subject, || node.fork());
+                clone_cycles += 1;
             }
             let (o, _) = on(Side::Subject, || node.feed(spec.mode, x));
             digest = fnv_u64(digest, o.bits()[0]);
@@ -199,6 +205,7 @@ pub fn exec(sc: &Scenario, st: &mut Stats) -> Option<Violation> {
     st.add("corrupt_ticks_delivered", faults_fired);
     st.add("resets_inside_streams", resets_done);
     st.add("restores_or_clone_handovers_in_mid_stream", restores);
+    st.add("clone_cycles_inside_streams", clone_cycles);
     st.max("max_serialized_size_over_bound", max_size as f64 / b as f64);
     st.max("max_heap_growth_over_bound", max_growth as f64 / b as f64);
     st.max("max_transient_peak_over_bound", max_peak as f64 / b as f64);
@@ -236,7 +243,7 @@ pub fn exec_plain(sc: &Scenario) -> Option<Violation> {
 }
 
 fn stream(shape: Regime, level: f64, saw: usize, seed: u64, len: u64) -> Op {
-    Op::Gen { n: 0, g: StreamDesc { regime: shape, level: Fx(level), saw, seed }, skip: 0, len, fault: None, every: 0, reset_every: 0 }
+    Op::Gen { n: 0, g: StreamDesc { regime: shape, level: Fx(level), saw, seed }, skip: 0, len, fault: None, every: 0, reset_every: 0, clone_every: 0 }
 }
 
 fn spec_for(kind: Kind, sum: usize, mode_sel: u64, split: u64) -> NodeSpec {
@@ -307,14 +314,14 @@ pub fn generate(rng: &mut Rng, tier: Tier) -> Scenario {
     // restore (a skipped capacity/limit field) only leaks from then on
     if rng.chance(0.3) {
         let first = ops.remove(0);
-        if let Op::Gen { n, g, skip, len, fault, every, reset_every } = first {
+        if let Op::Gen { n, g, skip, len, fault, every, reset_every, clone_every } = first {
             let cut = rng.range(0, (4 * sum + 8).min(len as usize - 1)) as u64;
             if cut > 0 {
-                ops.insert(0, Op::Gen { n, g, skip, len: cut, fault, every, reset_every });
+                ops.insert(0, Op::Gen { n, g, skip, len: cut, fault, every, reset_every, clone_every });
             }
             let at = if cut > 0 { 1 } else { 0 };
             ops.insert(at, if rng.chance(0.8) { Op::RoundTrip { n: 0, times: 1, json: false } } else { Op::Fork { src: 0, dst: 0, into: false } });
-            ops.insert(at + 1, Op::Gen { n, g, skip: skip + cut, len: len - cut, fault, every, reset_every });
+            ops.insert(at + 1, Op::Gen { n, g, skip: skip + cut, len: len - cut, fault, every, reset_every, clone_every });
         }
     }
     // 35% of the runs: a corrupt feed (a fault value every k-th tick) and/or periodic resets - an
@@ -323,11 +330,14 @@ pub fn generate(rng: &mut Rng, tier: Tier) -> Scenario {
         let f = if rng.chance(0.8) { Some(*rng.pick(&crate::world::VALUE_FAULTS)) } else { None };
         let ev = if f.is_some() { rng.log_range(1, 500) as u64 } else { 0 };
         let re = if rng.chance(0.5) { rng.log_range(1, 5000) as u64 } else { 0 };
+        // growth through repeated clone cycles rather than through next()
+        let ce = if rng.chance(0.3) { rng.log_range(1, 5000) as u64 } else { 0 };
         for op in ops.iter_mut() {
-            if let Op::Gen { fault, every, reset_every, .. } = op {
+            if let Op::Gen { fault, every, reset_every, clone_every, .. } = op {
                 *fault = f;
                 *every = ev;
                 *reset_every = re;
+                *clone_every = ce;
             }
         }
     }
